@@ -133,7 +133,7 @@ func c14Check(r *hx.Run, locs []locSpec, names []string, host, uri string, ls *l
 }
 
 func c14(r *hx.Run) {
-	r.Rule = "exhaustive: every ordered tuple of <=3 location shapes (host subset of {h1,h2} x prefix subset of {/a,/a/b,/b}) x every subset of the location names x 15 queries ({h1,h2,h3} x {/a/x,/a/b/x,/b,/c,/}); sampled tuples of 4; random larger universes; then end-to-end configs through a real server with one origin per location (which origin saw the request). Non-trivial = lookup with >=2 matching named locations of different classes or no match; distinct = (shape tuple, names, query)."
+	r.Rule = "exhaustive: every ordered tuple of <=3 location shapes (host subset of {h1,h2} x prefix subset of {/a,/a/b,/b}) x every subset of the location names x 15 queries ({h1,h2,h3} x {/a/x,/a/b/x,/b,/c,/}); sampled tuples of 4; random larger universes; then end-to-end configs through a real server (incl. percent-encoded request URIs, which are matched as sent) with one origin per location (which origin saw the request). Non-trivial = lookup with >=2 matching named locations of different classes or no match; distinct = (shape tuple, names, query)."
 	r.Assume = []string{"ties inside one class are left to pike (any member accepted)"}
 	rnd := rand.New(rand.NewSource(r.Seed))
 	hostSets := subsets([]string{"h1", "h2"})
@@ -292,7 +292,7 @@ func c14EndToEnd(r *hx.Run, rnd *rand.Rand, shapes []locSpec) {
 		w.Cfg = mk(locs, names)
 		w.apply(r)
 		for _, h := range []string{"h1", "h2", "h3"} {
-			for _, u := range []string{"/a/x", "/a/b/x", "/b", "/c", "/"} {
+			for _, u := range []string{"/a/x", "/a/b/x", "/b", "/c", "/", "/%61/x", "/a%2Fb/x", "/%62"} {
 				q++
 				uri := fmt.Sprintf("%s?q=%d", u, q)
 				before := w.Farm.LogLen()
